@@ -12,7 +12,7 @@ from typing import Dict, List, Optional, Tuple
 
 import sympy as sp
 
-from ..core import AnalysisError, Func, Ob, dotted, kw, need, ob, short, src, walk_no_nested
+from ..core import canon_in, AnalysisError, Func, Ob, dotted, kw, need, ob, short, src, walk_no_nested
 from ..runner import Ctx, rule
 from ..symalg import Kernel, Sc, Vec, equal, vadd, vscale
 
@@ -155,7 +155,7 @@ def rule_cpform(ctx: Ctx) -> List[Ob]:
         rhs = rhs.value
     v = K.ev(rhs)
     ok, why = equal(v, Vec({"x": 1, "d": told + pos}))
-    okm = mask_l == mask_r and mask_l.replace(" ", "") in ("t>=t_cur", "t_cur<=t")
+    okm = canon_in(mask_l, mask_r) and canon_in(mask_l, "t >= t_cur")
     obs.append(ob("CPFORM", "remaining free variables move to x + t d along the path", f, st[0], ok and okm,
                   f"x_cp[{mask_l}] = ({v})[{mask_r}]" + ("" if ok else f"; {why}") + ("" if okm else "; masks differ / not `t >= t_cur`"),
                   construct="tail x_cp[t >= t_cur] = (x + t_old * d)[t >= t_cur]"))
@@ -235,7 +235,7 @@ def rule_cpform(ctx: Ctx) -> List[Ob]:
                   f"early return under `{src(fex.expand_at(early[0].test, early[0].test)) if early else '?'}`", construct="if nbreak == 0: return x_cp, c"))
     inf_set = [s for g in ctx.repo.funcs_in("cauchy") for s in walk_no_nested(g.node)
                if isinstance(s, ast.Assign) and isinstance(s.targets[0], ast.Subscript)
-               and src(s.value) in ("np.inf", "float('inf')") and src(s.targets[0].slice).replace(" ", "") in ("grad==0", "~mask", "~nz")]
+               and src(s.value) in ("np.inf", "float('inf')") and (canon_in(s.targets[0].slice, "grad == 0") or src(s.targets[0].slice).replace(" ", "") in ("~mask", "~nz"))]
     obs.append(ob("CPFORM", "variables with zero gradient never reach a bound (t = inf)", f, inf_set[0] if inf_set else pre[0], bool(inf_set),
                   short(inf_set[0]) if inf_set else "no statement t[grad == 0] = inf", construct="t[grad == 0] = np.inf"))
     # breakpoint times and direction
@@ -244,7 +244,7 @@ def rule_cpform(ctx: Ctx) -> List[Ob]:
     need(len(dsrc) == 1, "CPFORM: definition of the projected steepest-descent direction d not found")
     dv = dsrc[0].value
     okd = isinstance(dv, ast.Call) and dotted(dv.func) == "np.where" and len(dv.args) == 3 and \
-        src(dv.args[0]).replace(" ", "") in ("t==0", "0==t") and src(dv.args[1]) in ("0.0", "0") and src(dv.args[2]) == "-grad"
+        canon_in(dv.args[0], "t == 0") and canon_in(dv.args[1], "0") and canon_in(dv.args[2], "-grad")
     obs.append(ob("CPFORM", "direction is -g on variables with a positive breakpoint, 0 on the others", f, dsrc[0], okd,
                   f"d = {short(dv)}", construct="d = where(t == 0, 0, -grad)"))
     return obs
@@ -749,9 +749,9 @@ def rule_subform(ctx: Ctx) -> List[Ob]:
                   f"dHat = {K.env['dHat']}" + ("" if ok else f"; reference {ref}; {why}"), construct="dHat"))
     # v enters through W^T Z rHat
     vdef = [s for s in f.node.body if _top_targets(s) == ["v"]]
-    okv = bool(vdef) and src(vdef[0].value).replace(" ", "") in ("WTZ.dot(rHat)", "WTZ@rHat")
+    okv = bool(vdef) and canon_in(vdef[0].value, "WTZ @ rHat")
     wdef = [s for s in f.node.body if _top_targets(s) == ["WTZ"]]
-    okw = bool(wdef) and src(wdef[0].value).replace(" ", "") in ("Z.T.dot(mats.W).T", "(Z.T@mats.W).T", "mats.W.T@Z", "mats.W.T.dot(Z)")
+    okw = bool(wdef) and canon_in(wdef[0].value, "(Z.T @ mats.W).T", "mats.W.T @ Z")
     obs.append(ob("SUBFORM", "the right-hand side of the reduced system is W^T Z rHat", f, vdef[0] if vdef else f.node, okv and okw,
                   f"v = {short(vdef[0].value) if vdef else '?'}; WTZ = {short(wdef[0].value) if wdef else '?'}", construct="v = (W^T Z) rHat"))
     return obs
